@@ -8,7 +8,8 @@
 
     Executable model only; the proofs are in Proofs/UdpTc.v. *)
 From Verif Require Import Base.Prelude Gen.Constants.
-From Verif Require Model.Addr.   (* only for [udp_upstream_dials] at the end *)
+From Verif Require Model.Addr.   (* only for [udp_upstream_dials] *)
+From Verif Require Model.Retry.  (* only for [reuse_stale] at the end *)
 Open Scope N_scope.
 
 (** * The DNS header (RFC 1035 4.1.1) *)
@@ -276,4 +277,27 @@ Fixpoint rrun (f : bytes -> bytes) (s : rpool) (es : list rev) : list (option by
   match es with
   | [] => []
   | e :: t => let '(s', r) := rstep f s e in r :: rrun f s' t
+  end.
+
+(** * Several idle TCP connections that have gone stale
+
+    The retry loop of ReuseConnTransport.ExchangeContext is the one of
+    Model/Retry.v ([Retry.loop Retry.reuse_cfg]; condition and constant
+    regenerated from reuse.go into Gen/RetryFacts.v, Gen/Constants.v).  Here:
+    [k] idle connections on each of which the server reads the query and then
+    closes, while a freshly dialled connection is answered with [f q]. *)
+Definition stale_att : Retry.attempt := Retry.mkAtt false false false.
+
+Definition stale_script (k : nat) (fresh : option bool) : list Retry.pass :=
+  repeat (Retry.Exch stale_att) k ++
+  match fresh with
+  | None => [Retry.AcqFail]                          (* the dial is refused *)
+  | Some ok => [Retry.Exch (Retry.mkAtt true ok false)]
+  end.
+
+Definition reuse_stale (k : nat) (f : bytes -> bytes) (q : bytes) : outcome * tcp_eff :=
+  match Retry.loop Retry.reuse_cfg 0 (stale_script k (Some true)) with
+  | (Retry.FOk, n) => (Reply (f q), mkEff true 1 (repeat q n))
+  | (Retry.FErr, n) => (Err e_closed, mkEff false 0 (repeat q n))
+  | (_, _) => (Err e_refused, mkEff false 0 [])
   end.
